@@ -202,7 +202,7 @@ Definition run_C04 (c : c04case) : list Z :=
   | CBool h b => [0; zb b; 1; 1; 1]
   | CB64 h upd w => run_b64 h w
   | CJson h upd nf prev v => run_json h nf prev v
-  | CJsonDefault txt d => [0] ++ enc_jsn (JString txt)      (* Ifnull(<json>, ?): the default is bound as text and comes back as a JSON string *)
+  | CJsonDefault txt d => [0] ++ enc_jsn (canon d)      (* Ifnull(<json>, json(?)) since 6a15d74: the default comes back as the JSON value *)
   | CAlias a m q qn => if ident_ok a then [1; zb (str_eqb (skeleton2 (sql_text m q) 0) (skeleton2 (sql_text m qn) 0)); 1; 1] else [0]
   | CSearch term acc => [1; if plain_term term then 1 else zb acc]
   | CDefault m q => 1 :: enc_str (sql_text m q) ++ enc_str (sql_text (neutral_model m) q)
@@ -277,7 +277,8 @@ Definition spec_C04 (c : c04case) (obs : list Z) : bool :=
   end.
 
 (* ---- classes of inputs on which the code is known to violate the property ----
-   the four classes found on the original tree were repaired in /repo
+   class 6 (the default of a Json field on a row lacking the member was returned as a JSON string holding the default's
+   text) was repaired in 6a15d74; the four classes found on the original tree were repaired in /repo
    (1 literal escapes: cdaba75, 2 String default written into the filter SQL: 936f709,
     3 variable captured by a literal: e64e320, 4 Float literal written with Display: 043e710) *)
 Definition known_C04 (c : c04case) : list Z :=
@@ -285,9 +286,6 @@ Definition known_C04 (c : c04case) : list Z :=
   | CSearch term acc => if plain_term term then [] else [5]
       (* 5: the search term is handed to FTS5 as a query expression: a term that is not made of plain words
             (quotes, operators, punctuation) is read as FTS5 syntax and can be refused *)
-  | CJsonDefault txt d => [6]
-      (* 6: the default of a Json field, for a row that lacks the member, is returned as a JSON string holding the
-            default's text instead of the JSON value (get_fields: Ifnull(select, ?) with the default bound as text) *)
   | _ => []
   end.
 
